@@ -131,6 +131,12 @@ fn check_esh(report: &mut Report, pname: &str, c: &EshCall, d: u64, replay: &J) 
         (1.0 + alpha.abs()) / (1.0 + alpha + (1.0 - alpha) * zeta * zeta).abs().max(1e-300)
     };
     let tol_ke = 1e-11 * (1.0 + dke.abs() + delta * (c.grad.len() as f64)) + 256.0 * f64::EPSILON * ke_amplification * (c.grad.len() as f64);
+    if 256.0 * f64::EPSILON * ke_amplification > 1e-3 {
+        // momentum opposite to the gradient to within rounding: the logarithm has no significant digit left (the
+        // closed form itself moves by more than its value under a one-ulp change of alpha); nothing to compare
+        report.count("esh_energy_changes_too_ill_conditioned_to_compare", 1);
+        return true;
+    }
     if !((c.delta_ke - dke).abs() <= tol_ke) {
         report.violation(sig("esh_kinetic_energy_change"), format!("draw {d}: reported {} closed form {dke}", c.delta_ke), replay.clone());
         return false;
